@@ -391,7 +391,8 @@ pub fn run(ctx: &mut Ctx) {
     }
     let mut case: u64 = 0;
     // exhaustive: all histories of length <= K from the empty stack and from a 3-element stack
-    let k = ctx.n(3, 4);
+    // fuzz mode: the exhaustive part is skipped (the tape drives the random histories only)
+    let k = if ctx.is_fuzz() { 0 } else { ctx.n(3, 4) };
     let ops = all_ops(5);
     let nops = ops.len() as u64;
     let mut space: u64 = 0;
@@ -433,7 +434,7 @@ pub fn run(ctx: &mut Ctx) {
         }
         let mut r = Rng::derive(ctx.seed, &[16, j]);
         let mut h = vec![];
-        for _ in 0..300 {
+        for _ in 0..(if ctx.is_fuzz() { 60 } else { 300 }) {
             // bias toward growth so that deep positions are reached
             if r.chance(1, 2) {
                 h.push(if r.bool() { Op::Push } else { Op::PushVec(2) });
